@@ -390,6 +390,31 @@ theorem dot_on_segment (hf : FmodLaws K) (cfg : Cfg K)
   simp only [rot, P.sdiv, P.smul, P.add_def, P.sub_def]
   apply P.ext' <;> simp only <;> field_simp <;> ring
 
+/-! ### Curved input -/
+
+/-- **row_is_evenodd_curved.**  `hatch_path` on a well-formed path with quadratic / cubic
+segments: the curves are replaced by the polyline `for_each_flattened_with_t` emits (model of
+property C09, `Model/Geom/Flatten.lean`); the resulting stream is again a sequence of closed
+sub-paths, so on every hatched row a point that is not on the flattened outline lies strictly
+inside an emitted segment iff the even-odd crossing count of the (rotated) flattened outline at
+that point is odd.  How far the flattened outline is from the curve is C09's statement. -/
+theorem row_is_evenodd_curved [FlatConst K] (o : Options K) (tol : K) (nan : P K) (B : Builder σ K)
+    (fuel : Nat) (csps : List (P K × List (CSeg K))) (b0 : σ) (st : St σ K)
+    (h : hatchPathCurved o tol nan B fuel (cpathEvents csps) b0 = some st) :
+    ∃ sps, flattenEvents tol (cpathEvents csps) ⟨Scalar.zero, Scalar.zero⟩ = some (pathEvents sps) ∧
+      hatchPath o nan B fuel (pathEvents sps) b0 = some st ∧
+      ∀ r ∈ st.rows, ∀ x : K,
+        (∀ e ∈ buildEvents (Transc.cos o.angle) (Transc.sin o.angle) (pathEvents sps),
+          e.a.y ≤ r.y → r.y < e.b.y → solveX e r.y ≠ x) →
+        ((∃ s ∈ r.segs, s.xa < x ∧ x < s.xb) ↔
+          crossingsLeft (buildEvents (Transc.cos o.angle) (Transc.sin o.angle) (pathEvents sps)) x r.y % 2 = 1) := by
+  unfold hatchPathCurved at h
+  split at h
+  · simp at h
+  · rename_i pe hpe
+    obtain ⟨sps, rfl⟩ := flatten_closed tol csps _ pe hpe
+    exact ⟨sps, hpe, h, fun r hr x hx => row_is_evenodd_path o nan B fuel sps b0 st h r hr x hx⟩
+
 /-! ### The empty path -/
 
 /-- **hatch_total.**  `hatch` returns for every edge list: the only partial operation,
@@ -511,6 +536,18 @@ example : spanCount (buildEvents (1:ℚ) 0 (pathEvents [(⟨0, 0⟩, [⟨1, 0⟩
   have h6 : (Ordering.eq == Ordering.lt) = false := by decide
   norm_num [spanCount, buildEvents, pathEvents, subpathEvents, EB.step, addEdge, orient, rot, cmpPos,
     isort, insertBy, ltFrom, hb, h1, h2, h3, h4, h5, h6, List.filter]
+
+/-- hypothesis of `row_is_evenodd_curved`: on a well-formed stream whose flattening does not
+panic (here: a triangle given with `line_to`s, any flattening constants) `hatch_path` returns -/
+example [FlatConst ℚ] (o : Options ℚ) (B : Builder Unit ℚ) :
+    ∃ st, hatchPathCurved o (1/10) ⟨0, 0⟩ B 3
+      (cpathEvents [(⟨0, 0⟩, [.line ⟨4, 0⟩, .line ⟨0, 4⟩])]) () = some st := by
+  have hf : flattenEvents (1/10 : ℚ) (cpathEvents [(⟨0, 0⟩, [.line ⟨4, 0⟩, .line ⟨0, 4⟩])])
+      ⟨Scalar.zero, Scalar.zero⟩ = some (pathEvents [(⟨0, 0⟩, [⟨4, 0⟩, ⟨0, 4⟩])]) := by
+    simp [cpathEvents, csubpathEvents, CSeg.toEv, flattenEvents, pathEvents, subpathEvents]
+  unfold hatchPathCurved
+  rw [hf]
+  exact Option.isSome_iff_exists.mp (hatch_total _ B 3 _ ())
 
 end Examples
 
